@@ -219,7 +219,8 @@ fn layouts() -> Vec<(&'static str, Vec<SimIntf>)> {
 fn ips_for(intfs: &[SimIntf]) -> (String, Vec<IpAddr>) {
     // one service address per subnet/family; on two-subnet layouts the service lives on the first
     // subnet only (v4) plus the v6 subnet of the second interface
-    let mut v: Vec<IpAddr> = vec!["10.0.0.5".parse().unwrap()];
+    // (two addresses of the same family in the first subnet)
+    let mut v: Vec<IpAddr> = vec!["10.0.0.5".parse().unwrap(), "10.0.0.6".parse().unwrap()];
     if intfs.iter().any(|i| i.ip.is_ipv6() && i.index == IF0) {
         v.push("fd00::5".parse().unwrap());
     }
@@ -528,6 +529,25 @@ pub fn check(tier: &str) -> i32 {
         run: Box::new(move |i, tr| { let x = unrank(i, &dims); run_state(x[1] as usize, &seq_of(x[0], depth), x[2] == 1, thorough || x[3] == 0, x[3], tr) }),
     };
     rep.run_part(&part, Duration::from_secs(if thorough { 3000 } else { 50 }));
+    // one level deeper, single questions only, with and without a host rename (e.g. two services on
+    // a renamed host, one of them unregistered)
+    let d3 = depth + 1;
+    let mut n3 = 0u64;
+    let mut b = 1u64;
+    for _ in 0..=d3 {
+        n3 += b;
+        b *= OPS.len() as u64;
+    }
+    let first3 = nseq; // sequences of exactly depth+1 events come after the shorter ones
+    let dims3 = [n3 - first3, 4, 2];
+    let deeper = FnPart {
+        name: "deeper-sequences-single-questions".into(),
+        rule: format!("every sequence of exactly {d3} events x 4 layouts x (no conflict | host name claimed by a scripted peer during the first probing); every single question (old and new names) from port 5353 and 40000 on every interface and IP family"),
+        n: product(&dims3),
+        describe: Box::new(move |i| { let x = unrank(i, &dims3); format!("layout {} ops {:?} rename {}", layouts()[x[1] as usize].0, seq_of(x[0] + first3, d3), x[2] * 2) }),
+        run: Box::new(move |i, tr| { let x = unrank(i, &dims3); run_state(x[1] as usize, &seq_of(x[0] + first3, d3), false, false, x[2] * 2, tr) }),
+    };
+    rep.run_part(&deeper, Duration::from_secs(if thorough { 3000 } else { 50 }));
     rep.require("states-x-queries", "responses_checked");
     rep.require("states-x-queries", "legacy_responses_checked");
     rep.require("states-x-queries", "renamed_service_views");
